@@ -390,15 +390,40 @@ def rule_driver_loops(ctx):
                 nested = b.kind == "closure" or bool(b.in_loop(s.bb)) or own_solves
                 r.check(not nested, "%s|requery" % fnb.id, "query-per-argument", "delegates once to the sibling method", "%s starts another query of the same solver %s: the SAT calls of a query are multiplied by the number of listed arguments" % (fnb.path.rsplit("::", 1)[-1], "inside a closure / loop" if (b.kind == "closure" or b.in_loop(s.bb)) else "besides its own SAT calls"), s.loc())
     # CO / ST call structure
+    def _closure_site(clo):
+        """(parent body, site where the closure is handed to an adaptor / created) or None"""
+        par = prog.by_target[clo.target].get(clo.parent["direct"]) if clo.parent else None
+        if par is None:
+            return None
+        for cs in par.calls():
+            c = callee_of(cs)
+            if c is not None and clo.path in (c.get("fn_args") or []):
+                return par, cs
+        for st in par.sites():
+            nd = st.node
+            if st.si is not None and nd["k"] == "assign" and nd["rv"]["k"] == "aggregate" and nd["rv"]["agg"].get("kind") == "closure" and nd["rv"]["agg"].get("path") == clo.path:
+                return par, st
+        return None
+
     for path, per_loop in (("solvers::complete_semantics_solver::CompleteSemanticsSolver", False), ("solvers::stable_semantics_solver::StableSemanticsSolver", True)):
         for b in prog.lib_bodies():
-            if b.kind == "closure" or not b.impl or b.impl.get("self_adt") != path:
+            fnb0 = prog.enclosing_fn(b)
+            if not fnb0.impl or fnb0.impl.get("self_adt") != path:
                 continue
             solves = [s for s in b.calls() if callee_matches(callee_of(s), SOLVE)]
             for s in solves:
                 loops = b.in_loop(s.bb)
+                # a per-element closure (`find_map`, `for_each`, ..) is a loop of its own
+                own = len(loops)
+                cur = b
+                while cur.kind == "closure":
+                    cs_ = _closure_site(cur)
+                    if cs_ is None:
+                        break
+                    own += 1 + len(cs_[0].in_loop(cs_[1].bb))
+                    cur = cs_[0]
                 if not per_loop:
-                    r.check(not loops, b.id + "|solve", "solve-in-loop", "the complete solver's SAT call is not in a loop", "the complete solver calls the SAT solver inside a loop", s.loc())
+                    r.check(own == 0, fnb0.id + "|solve", "solve-in-loop", "the complete solver's SAT call is not in a loop", "the complete solver calls the SAT solver inside a loop", s.loc())
                 else:
                     # loops around the call, through the private helpers of the solver that hold it
                     def depth_of(fn, site_depth, seen=()):
@@ -408,12 +433,19 @@ def rule_driver_loops(ctx):
                         out = set()
                         for c in cs:
                             cf = prog.enclosing_fn(c.body)
-                            extra = len(c.body.in_loop(c.bb)) + (1 if c.body.kind == "closure" else 0)
-                            out |= depth_of(cf, site_depth + extra, seen + (fn.id,)) if cf is not c.body or True else set()
+                            extra = len(c.body.in_loop(c.bb))
+                            cur2 = c.body
+                            while cur2.kind == "closure":
+                                cs2 = _closure_site(cur2)
+                                if cs2 is None:
+                                    break
+                                extra += 1 + len(cs2[0].in_loop(cs2[1].bb))
+                                cur2 = cs2[0]
+                            out |= depth_of(cf, site_depth + extra, seen + (fn.id,))
                         return out
 
-                    depths = depth_of(b, len(loops))
-                    r.check(depths == {1}, b.id + "|solve", "loop-depth=%s" % sorted(depths), "SAT call inside the per-component loop only", loc=s.loc())
+                    depths = depth_of(fnb0, own)
+                    r.check(depths == {1}, fnb0.id + "|solve", "loop-depth=%s" % sorted(depths), "SAT call inside the per-component loop only", loc=s.loc())
                     if loops:
                         head = loops[0]
                         twice = any(x.bb != s.bb and b.reaches(s.bb, x.bb, avoid={head}) for x in solves)
